@@ -10,6 +10,8 @@ lost, duplicated, re-ordered, delayed across attempts; timeouts may fire anywher
 -/
 import GeckoModel.Proofs.TransferSync
 import GeckoModel.Generated.ThreadedFacts
+import GeckoModel.Model.Coop
+import GeckoModel.Generated.Skeletons
 
 namespace GeckoModel.C01
 open GeckoModel GeckoModel.Generated
@@ -180,5 +182,26 @@ theorem engine_hands_over_one_datagram_per_cleanup :
     "GeckoUdpSocket._process_received_data" ∈ auditedShapes ∧ "GeckoUdpSocket._thread_func" ∈ auditedShapes ∧
     "GeckoUdpSocket._cleanup_handlers" ∈ auditedShapes ∧ "GeckoUdpSocket.dispatch_recevied_data" ∈ auditedShapes ∧
     threadPhaseCodes = [0, 1, 2, 3, 4] := by decide
+
+/-- **why a transfer may be modelled as a function of (client block, reply stream) alone**: over the regenerated skeleton of
+`GeckoAsyncStructure.get`, the coroutine assigns NO attribute of the structure (its assembly state lives in local variables) and
+its only call on the structure is `replace_status_block_segment` - nothing a transfer learns survives it except the installed
+bytes, so a later transfer cannot be influenced by an earlier one (no memo, no cached reply) -/
+theorem async_get_keeps_no_state_between_transfers :
+    Coop.selfStateWritten Skeletons.sk_driver_async_spastruct__GeckoAsyncStructure_get = [] ∧
+    (Coop.actions .call Skeletons.sk_driver_async_spastruct__GeckoAsyncStructure_get).filter Coop.isSelfState =
+      ["self.replace_status_block_segment"] := by decide +kernel
+
+/-- non-vacuity: the skeleton does assign (locals) and a memo attribute would be seen -/
+example : "retry_count" ∈ Coop.actions .set Skeletons.sk_driver_async_spastruct__GeckoAsyncStructure_get ∧
+    Coop.selfStateWritten (.ev (.act ⟨.set, "self._last_fetched[]"⟩)) = ["self._last_fetched[]"] := by decide +kernel
+
+/-- the threaded assembler's whole state is the two attributes of the model (`_next_expected`, the collected segments) plus the
+success flag; it installs only through `replace_status_block_segment` -/
+theorem threaded_assembler_state_inventory :
+    (Coop.selfStateWritten Skeletons.sk_driver_spastruct__GeckoStructure__on_status_block_received,
+     (Coop.actions .call Skeletons.sk_driver_spastruct__GeckoStructure__on_status_block_received).filter Coop.isSelfState) =
+      (["self._next_expected", "self._status_block_segments", "self._next_expected", "self.had_at_least_one_block"],
+       ["self._status_block_segments.append", "self.replace_status_block_segment"]) := by decide +kernel
 
 end GeckoModel.C01
